@@ -494,17 +494,44 @@ func c04R5(p *Prog, r *Report) {
 	}
 	// clear count formula
 	for _, fc := range []*FuncCtx{madd, add} {
+		// the loop that zeroes ring blocks, as `for range n` or `for i := 0; i < n; i++`
 		var rng *Vertex
+		var bound ast.Expr
 		for _, v := range fc.G.V {
 			if v.Kind == VRange {
 				rng = v
+				bound = v.Stmt.(*ast.RangeStmt).X
+			}
+			if fs, isFor := v.Stmt.(*ast.ForStmt); isFor && v.Kind == VCond && fs.Init != nil && fs.Post != nil {
+				init, ok1 := fs.Init.(*ast.AssignStmt)
+				post, ok2 := fs.Post.(*ast.IncDecStmt)
+				cond, ok3 := ast.Unparen(fs.Cond).(*ast.BinaryExpr)
+				if !ok1 || !ok2 || !ok3 || len(init.Lhs) != 1 || len(init.Rhs) != 1 || post.Tok != token.INC || cond.Op != token.LSS {
+					continue
+				}
+				iv := objOf(fc.Info(), init.Lhs[0])
+				k, isC := constInt(fc.Info(), init.Rhs[0])
+				if iv == nil || !isC || k != 0 || objOf(fc.Info(), post.X) != iv || objOf(fc.Info(), cond.X) != iv {
+					continue
+				}
+				// the counter is not assigned inside the body
+				assigned := false
+				for _, d := range fc.Defs(iv) {
+					if n := fc.G.V[d].Node; n != nil && fs.Body.Pos() <= n.Pos() && n.End() <= fs.Body.End() {
+						assigned = true
+					}
+				}
+				if !assigned {
+					rng = v
+					bound = cond.Y
+				}
 			}
 		}
 		if rng == nil {
 			r.Fail(rule, fc.Name+":clear-loop", p.posStr(fc.Body.Pos()), "no block-clearing loop")
 			continue
 		}
-		got := normExpr(p, fc, rng.Stmt.(*ast.RangeStmt).X)
+		got := normExpr(p, fc, bound)
 		bits := "64"
 		if c, ok := fc.Pkg.Types.Scope().Lookup("swfBlockBits").(*types.Const); ok {
 			bits = c.Val().ExactString()
